@@ -81,12 +81,12 @@ func snConfigs() []snConfig {
 	return out
 }
 
-// (key, message) pairs: quick = every key x "a" plus the derived key x every message; thorough = full product.
-func keyMsgPairs() [][2]int {
+// (key, message) pairs: factorised = every key x "a" plus the derived key x every message; otherwise the full product.
+func keyMsgPairs(fullProduct bool) [][2]int {
 	var out [][2]int
 	for k := 0; k < 3; k++ {
 		for m := 0; m < len(msgNames); m++ {
-			if engine.Thorough() || m == 1 || k == 2 {
+			if fullProduct || m == 1 || k == 2 {
 				out = append(out, [2]int{k, m})
 			}
 		}
@@ -100,13 +100,14 @@ func (c *snCtx[GE, S, RP]) pkStruct(p GE) *vanilla.PublicKey[GE, S] {
 
 func (c *snCtx[GE, S, RP]) body() func(*engine.X) {
 	cfgs := snConfigs()
-	pairs := keyMsgPairs()
 	q := c.ref.Order()
 	return func(x *engine.X) {
 		cfg := engine.Pick(x, "config", cfgs)
-		km := engine.Pick(x, "key,msg", pairs)
+		// the configuration the library's own tests and documentation name: SHA-256, little-endian challenge, s = k + e*x
+		named := cfg.h.name == "sha256" && cfg.le && !cfg.neg && !cfg.parity
+		km := engine.Pick(x, "key,msg", keyMsgPairs(engine.Thorough() && named))
 		ki, mi := km[0], km[1]
-		full := engine.Thorough() || (cfg.h.name == "sha256" && cfg.le && !cfg.neg && !cfg.parity && mi == 1 && ki == 2)
+		full := engine.Thorough() || (named && mi == 1 && ki == 2)
 		nChunks := 1
 		if full {
 			nChunks = 8
@@ -233,7 +234,7 @@ func (c *snCtx[GE, S, RP]) body() func(*engine.X) {
 			x.Failf("schnorr/"+c.name+"/key/identity-constructible", "%s: NewPublicKey accepted the identity", id)
 		}
 		addStruct("key/identity(struct)", sg, c.pkStruct(c.group.OpIdentity()), c.ref.Identity(), msg)
-		for _, ma := range messageAlterations(msg, 0) {
+		for _, ma := range messageAlterations(msg, 0, engine.Thorough() && named) {
 			addStruct(ma.label, sg, pk, pkRef, ma.msg)
 		}
 
